@@ -1192,6 +1192,9 @@ class Lib:
     def rebind(self, ctx, f, newval):
         if f.recv_node is None:
             raise OutOfSubset("in-place mutation of a temporary")
+        # mutable builtin values are modelled functionally (the name is rebound): remember which value was mutated so that a contract can state
+        # that an argument is NOT modified in place (the caller still holds the old value; see Interp.mutated_in_place)
+        self.I.notes.setdefault('mutated_in_place', []).append(f.recv)
         ctx.assign(f.recv_node, newval)
 
     def meth_append(self, ctx, recv, args, kwargs, f):
